@@ -1,5 +1,5 @@
 from rtamt.syntax.ast.visitor.stl.ast_visitor import StlAstVisitor
-from rtamt.explanation.ltl.discrete_time.explainer import LTLExplainer
+from rtamt.explanation.ltl.discrete_time.explainer import LTLExplainer, Explanations
 from rtamt.explanation.stl.discrete_time.explanations import *
 from rtamt.exception.exception import RTAMTException
 
@@ -16,6 +16,7 @@ class STLExplainer(LTLExplainer, StlAstVisitor):
 
     def explain(self, spec):
         self.spec = spec
+        self.explanations = Explanations()
         for spec in self.spec.specs:
             top_signal = self.spec.results[spec]
             if top_signal[0] < 0:
